@@ -139,6 +139,20 @@ def model (line : String) : String :=
       let (st, grains) := reassignByRole r s l
       s!"sh={showAS st.shares} lead={showA st.leader} gr={showG grains} fail={showA st.failed}"
     | _, _, _ => "bad-case"
+  | ["dv", a, g] =>
+    match parseActors a, (if g = "-" then some [] else some (g.splitOn ",")) with
+    | some a, some gtoks =>
+      -- grain token id[.flags]; flag y = reserved (system) grain name: dropped by the derivation
+      let gs := gtoks.filterMap (fun t => match t.splitOn "." with
+        | [i] => i.toNat?
+        | [i, fl] => if hasFlag fl 'y' then none else i.toNat?
+        | _ => none)
+      s!"a={showIds (sortIds (ids (snapshotActors a)))} g={showIds (sortIds gs)}"
+    | _, _ => "bad-case"
+  | ["ps", a] =>
+    match parseActors a with
+    | some a => s!"a={showIds (sortIds (ids (snapshotActors a)))} foreign=0"
+    | none => "bad-case"
   | ["sp", ps, t] =>
     match parsePeersE ps, t.toNat? with
     | some ps, some t =>
@@ -271,6 +285,27 @@ def judge (line : String) : String :=
     | some l, some s, some r =>
       if !nodupNat (ids (requestActors r)) || !nodupNat (gids (requestGrains r)) then "ok" else judgeRR l s r o
     | _, _, _ => "ok"
+  | ["ps", a] =>
+    match parseActors a with
+    | some a =>
+      let ws := words o
+      match (field ws "a").bind parseIdList, field ws "foreign" with
+      | some got, some fr =>
+        let want := (a.filter (fun x => !x.system && x.relocatable)).map (·.id)
+        if fr ≠ "0" then "bad the shutdown snapshot holds an entry that is not a user actor of the node (system entry?)"
+        else if sameIds got want then "ok"
+        else "bad the shutdown snapshot is not exactly the relocatable non-system actors of the node"
+      | _, _ => "bad unparsable output: " ++ o
+    | none => "ok"
+  | ["dv", a, _] =>
+    match parseActors a with
+    | some a =>
+      match (field (words o) "a").bind parseIdList with
+      | some got =>
+        let want := (a.filter (fun x => !x.system && x.relocatable)).map (·.id)
+        if sameIds got want then "ok" else "bad the derived relocation set is not exactly the relocatable non-system actor records"
+      | none => "bad unparsable output: " ++ o
+    | none => "ok"
   | ["sp", ps, t] =>
     match parsePeersE ps, t.toNat?, parseIdList o with
     | some ps, some t, some sv =>
